@@ -3,6 +3,7 @@
 mod bgzf_level;
 mod cut;
 mod format_level;
+mod format_writers;
 
 use bgzf_level::{ROp::*, WOp, make_case, make_wscript};
 use vmc::{Config, oracle::bgzf::Payload};
@@ -72,5 +73,9 @@ fn format_level_harnesses(ctx: &mut vmc::Ctx) {
     let choose = [PollMode::Choose];
     let b: u32 = std::env::var("C16_B").ok().and_then(|s| s.parse().ok()).unwrap_or(ctx.by_tier(1, 2));
     ctx.harness(Config::new("fmt_reader", b), |ch| format_level::reader_body(ch, &all, &workers, &choose));
+    let wcases: Vec<format_writers::WCase> = docs.iter().filter(|d| !d.big).filter_map(format_writers::make_wcase).collect();
+    eprintln!("[C16] format level: {} writer cases", wcases.len());
+    ctx.harness(Config::new("fmt_writer_uniform", 0), |ch| format_writers::writer_body(ch, &wcases, &workers, &uniform));
+    ctx.harness(Config::new("fmt_writer", b), |ch| format_writers::writer_body(ch, &wcases, &workers, &choose));
     let _ = Format::Bam;
 }
